@@ -1145,6 +1145,35 @@ class Unit:
                 btxt.append(inserts[idx])
             btxt.append(toks[idx].text)
         body_text = "".join(btxt)
+        if getattr(self, "vacuity", False) and spec["clauses"]:
+            # reachability probe (vacuity guard): a ghost `assert(false)` at the normal exit of the body must FAIL; if it is
+            # proved, the preconditions are contradictory (or an assumption made everything unreachable).  Callers do not see it.
+            # ... and one more probe inside every `return EXPR` (a body that is one infinite `loop` with `return`s never reaches
+            # its normal exit): `return { proof { assert(false); } EXPR }`.  A function is vacuous only if ALL its probes are proved.
+            bt = L.lex(body_text)
+            outb = []
+            i_ = 0
+            while i_ < len(bt):
+                t_ = bt[i_]
+                if t_.kind == L.IDENT and t_.text == "return":
+                    k_ = i_ + 1
+                    depth_ = 0
+                    while k_ < len(bt):
+                        x_ = bt[k_]
+                        if x_.kind == L.PUNCT and x_.text in ("(", "[", "{"):
+                            k_ = L.match_close(bt, k_)
+                        elif x_.kind == L.PUNCT and x_.text in (",", ";", "}", ")"):
+                            break
+                        k_ += 1
+                    expr = text_of(bt[i_ + 1:k_]).strip()
+                    if expr:
+                        outb.extend(L.lex("return { proof { assert(false); /*probe*/ } %s }" % expr))
+                        i_ = k_
+                        continue
+                outb.append(t_)
+                i_ += 1
+            body_text = "{ let r__probe = " + text_of(outb) + "; proof { assert(false); /*probe*/ } r__probe }"
+            self.log.setdefault("vacuity_probes", []).append((spec["name"] if free else "%s::%s" % (self.cur_self, spec.get("as") or spec["name"])))
         full = sig_text + clause_text + ("\n    " if clause_text else " ") + body_text
         if spec.get("vis") is not None:
             full = re.sub(r"^\s*(pub(\s*\([^)]*\))?\s+)?", "" if spec["vis"] == "none" else spec["vis"] + " ", full, count=1)
@@ -1638,8 +1667,10 @@ def main():
     ap.add_argument("template")
     ap.add_argument("-o", "--out", required=True)
     ap.add_argument("--log")
+    ap.add_argument("--vacuity", action="store_true", help="reachability probe: every spliced contract gets the extra postcondition `false`; each such function must then FAIL")
     a = ap.parse_args()
     u = Unit(a.template)
+    u.vacuity = a.vacuity
     try:
         text = u.build()
     except (Unsupported, L.LexError) as e:
